@@ -53,11 +53,14 @@ from vlib import core, net, peers
 PROPERTY = "C13"
 LEVEL = "exploration"
 RULE = (
-    "call x loss x moment x timeout x via(link|ProxyCommand child) enumerated (quick: every applicable call x loss pair "
+    "call x loss x moment x timeout x via(link|ProxyCommand child) enumerated; the call domain includes, for the sending calls "
+    "(send, sendall, exec_command, invoke_subsystem, global_request, open_session) and for recv / accept / a send on a zero window, "
+    "the state 'a key re-exchange is in flight' (started by the tested side or by the peer - drawn -, the peer's next kex packet held on the link, "
+    "so the sending calls are parked in Transport._send_user_message and the starting renegotiate_keys() is one more blocked call) (quick: every applicable call x loss pair "
     "once in call-first order over the link, every client call over a real ProxyCommand child for the proxy losses, plus "
     "drawn loss-first/together cases; thorough: full product x 3 moments x repetitions, sharded), errno / garbage flavour / "
     "skew drawn by hypothesis; cases run 6-8 at a time in threads (own Link/transports each); non-trivial = the caller thread "
-    "was observed (sys._current_frames, two samples) inside the expected paramiko wait with its request seen by the mute peer "
+    "was observed (sys._current_frames, two samples) inside the expected paramiko wait with its request seen by the mute peer (or the held kex packet seen on the link) "
     "when the loss was triggered, or the call was issued after the loss; distinct by (call, loss, moment, timeout, via, flavour, skew); "
     "a timeout counts only after 3 consecutive failing runs"
 )
@@ -298,21 +301,26 @@ NO_FAMILIES = {"D9": False, "D10a": False, "D10b": False}
 WAKEUP_WAITERS = ("accept-none", "accept2", "auth_password_event", "start_client_event-kex")
 
 
+def base_call(case):
+    return case["call"].split("@")[0]
+
+
 def exclusion(case, fam):
     """Key under which the case is excluded by construction, or None."""
+    call = base_call(case)
     if fam["D9"] and case["via"] == "proxy" and case["loss"] in ("proxy-exit", "proxy-kill", "peer-close", "link-eof", "link-error"):
         return "D9:proxy-child-eof-not-noticed"
-    if fam["D10b"] and case["loss"] == "local-close" and case["call"] in WAKEUP_WAITERS:
+    if fam["D10b"] and case["loss"] == "local-close" and call in WAKEUP_WAITERS:
         return "D10b:waiter-not-woken-after-local-close"
-    if fam["D10b"] and case["call"] == "accept2":
+    if fam["D10b"] and call == "accept2":
         return "D10b:single-notify-wakes-one-of-two-accepts"
-    if fam["D10a"] and case["call"] in ("accept-none", "accept2") and case["moment"] != "call-first":
+    if fam["D10a"] and call in ("accept-none", "accept2") and case["moment"] != "call-first":
         return "D10a:accept(None)-issued-after-the-end"
     return None
 
 
 def skip_reissue(case, fam):
-    return fam["D10a"] and case["call"] in ("accept-none", "accept2")
+    return fam["D10a"] and base_call(case) in ("accept-none", "accept2")
 
 
 # ----------------------------------------------------------------------------- ProxyCommand relay
@@ -473,7 +481,10 @@ class Env:
         self.tested = self.peer = self.chan = None
         self.events = []
         self.stage_done = False
+        self.rekey_started = None  # "local" | "peer" once a key re-exchange is in flight
         self.threads = []
+        self.bystanders = []  # tested calls blocked as part of the state (renegotiate_keys of a local re-exchange)
+        self.aux = []  # harness threads (the peer's renegotiate_keys)
 
     # -- construction
     def build(self):
@@ -519,14 +530,50 @@ class Env:
                     self.chan.sendall(b"a" * 32768)
         except (paramiko.SSHException, socket.timeout, EOFError, OSError) as e:
             raise Inconclusive("session setup failed: %r" % (e,))
-        if sp.role == "client":
+        if sp.role == "client" or sp.rekey:
             if sp.mute == "raw":
                 self.peer.raw()
             else:
                 self.rx.set_hold(True)
+        if sp.rekey and not (sp.rekey == "after-call" and self.case["moment"] == "call-first"):
+            self.start_rekey()
 
-    def advance_stage(self):
-        """start_client-kex: let banner + KEXINIT through, then wait for the (held) kex reply."""
+    def start_rekey(self):
+        """Put a key re-exchange in flight that cannot finish: the inbound direction is held, so the peer's next
+        kex packet never arrives. flavor // 8 % 2: 0 = the tested side starts it (renegotiate_keys() in a thread -
+        a blocked tested call of its own), 1 = the peer starts it (its KEXINIT is let through, the tested side
+        answers, the peer's kex reply / kex init is held)."""
+        by_peer = self.case["flavor"] // 8 % 2 == 1
+        if self.rx.n_pending():
+            raise Inconclusive("unexpected traffic from the peer before the re-exchange")
+        n_sent = len(self.tx.sent)
+        if by_peer:
+            self.aux.append(run_thread(self.peer.renegotiate_keys, "c13-peer-rekey"))
+            if not self.rx.wait_pending(1, SETUP_T):
+                raise Inconclusive("peer KEXINIT not seen")
+            self.rx.release(1)
+        else:
+            self.bystanders.append(self.start_caller(fn=c_renegotiate))
+        end = time.monotonic() + SETUP_T
+        while not (len(self.tx.sent) > n_sent and self.rx.n_pending() >= 1):
+            if time.monotonic() >= end or not self.tested.is_active():
+                raise Inconclusive("re-exchange not in flight")
+            time.sleep(0.005)
+        self.rekey_started = "peer" if by_peer else "local"
+
+    def advance_stage(self, callers):
+        """start_client-kex: let banner + KEXINIT through, then wait for the (held) kex reply.
+        rekey="after-call": once the call sits in its wait, start the re-exchange."""
+        if self.spec.rekey == "after-call":
+            end = time.monotonic() + SETUP_T
+            ok = 0
+            while ok < 2:
+                if time.monotonic() >= end or any(th.rec["t_end"] is not None for th in callers):
+                    raise Inconclusive("call not blocked before the re-exchange")
+                ok = ok + 1 if all(self.inside(th) for th in callers) else 0
+                time.sleep(0.01)
+            self.start_rekey()
+            return
         if not self.case["call"].endswith("-kex"):
             return
         if not self.rx.wait_pending(2, SETUP_T):
@@ -537,8 +584,9 @@ class Env:
         self.stage_done = True
 
     # -- the call
-    def start_caller(self, barrier=None, delay=0.0):
+    def start_caller(self, barrier=None, delay=0.0, fn=None):
         rec = {"outcome": None, "t_start": None, "t_end": None}
+        fn = fn or self.spec.fn
 
         def body():
             if barrier is not None:
@@ -547,7 +595,7 @@ class Env:
                 time.sleep(delay)
             rec["t_start"] = time.monotonic()
             try:
-                v = self.spec.fn(self, self.case["timeout"])
+                v = fn(self, self.case["timeout"])
                 rec["outcome"] = "ret:" + type(v).__name__
             except BaseException as e:
                 rec["outcome"] = "exc:" + type(e).__name__
@@ -667,7 +715,7 @@ class Env:
             tm = getattr(t.packetizer, "_Packetizer__timer", None)
             if tm:
                 tm.cancel()
-        for th in self.threads:
+        for th in self.threads + self.aux:
             th.join(5)
             leaked += th.is_alive()
         for t in transports:
@@ -735,7 +783,7 @@ def attempt(case, tmpdir, fam):
         if moment == "call-first":
             callers = [env.start_caller() for _ in range(n)]
             try:
-                env.advance_stage()
+                env.advance_stage(callers)
             except Inconclusive as e:
                 res["status"] = "inconclusive"
                 res["detail"] = "stage: %s" % e
@@ -783,10 +831,25 @@ def attempt(case, tmpdir, fam):
                 return res
         t_loss = trig.box["t"]
         deadline = t_loss + BOUND
+        if env.rekey_started:
+            res["classes"].append("rekey-in-flight-by:" + env.rekey_started)
+
+        def bystanders_back():
+            # renegotiate_keys() that put the re-exchange in flight is a blocked call like any other
+            stuck = join_all(env.bystanders, deadline)
+            if stuck:
+                fail("blocked-call-returns", "renegotiate_keys() that started the re-exchange still blocked %gs after the loss" % BOUND)
+                return False
+            for th in env.bystanders:
+                res["classes"].append("rekey-starter:" + th.rec["outcome"])
+            return True
+
         if moment == "loss-first":
             if sp.kind != "start":
                 if not wait_inactive(deadline):
                     return fail("inactive", "is_active() still True %gs after the loss" % BOUND)
+            if not bystanders_back():
+                return res
             callers = [env.start_caller() for _ in range(n)]
             res["nontrivial"] = True
             res["classes"].append("issued-after-loss")
@@ -804,6 +867,8 @@ def attempt(case, tmpdir, fam):
             return fail(clause, "%d of %d caller(s) still blocked %gs after the loss" % (len(stuck), len(callers), BOUND))
         for th in callers:
             res["classes"].append("outcome:" + th.rec["outcome"])
+        if moment != "loss-first" and not bystanders_back():
+            return res
         if not wait_inactive(deadline):
             return fail("inactive", "is_active() still True %gs after the loss" % BOUND)
         if moment != "loss-first" and not skip_reissue(case, fam):
